@@ -177,7 +177,7 @@ def swapaxes(self, axis1, axis2):
     (4, 3, 2)
     """
     pos, _ = self._get_axes_info([axis1, axis2])
-    axis1, axis2 = pos  # axis positions
+    axis1, axis2 = [p % self.ndim for p in pos]  # axis positions (counted from the start)
     newshape = []
     for i in range(self.ndim):
         if i == axis1:
